@@ -1,6 +1,7 @@
 package mod
 
 import (
+	"strings"
 	"context"
 	"errors"
 	"fmt"
@@ -98,6 +99,12 @@ func (c *VirtualTable) BestIndex(input *sqlite.IndexInfoInput) (*sqlite.IndexInf
 	indexIn := make([]s3db.IndexInput, len(input.Constraints))
 	for i, c := range input.Constraints {
 		op := mapOp(c.Op, c.Usable)
+		if op != s3db.OpIgnore && !strings.EqualFold(input.Collation(i), "BINARY") {
+			// The tree is ordered bytewise. A comparison SQLite makes with
+			// another collation (NOCASE, RTRIM, ...) cannot narrow the scan:
+			// rows that are equal or in range under it would be skipped.
+			op = s3db.OpIgnore
+		}
 		indexIn[i] = s3db.IndexInput{
 			ColumnIndex: c.ColumnIndex,
 			Op:          op,
